@@ -92,8 +92,27 @@ def find_sites(model: Model) -> List[RxSite]:
                 subj = n.args[2] if attr in ("sub", "subn") and len(n.args) > 2 else (n.args[1] if attr not in ("sub", "subn") and len(n.args) > 1 else None)
                 sites.append(RxSite(fi.module, fq, n, APIS[attr], pat, flags, name, cb, subj, id(n) in nested_ids))
             else:
-                pq = model.resolve_name(fi.module, rtxt) if isinstance(recv, (ast.Name, ast.Attribute)) else None
-                if pq in comp:
+                def alternatives(e: ast.expr, depth: int = 0) -> List[str]:
+                    # the compiled patterns the receiver can be: a module-level pattern, a choice between two, a local bound once to either
+                    if isinstance(e, ast.IfExp):
+                        return alternatives(e.body, depth) + alternatives(e.orelse, depth)
+                    if isinstance(e, (ast.Name, ast.Attribute)):
+                        q_ = model.resolve_name(fi.module, norm(e))
+                        if q_ in comp:
+                            return [q_]
+                        if isinstance(e, ast.Name) and depth < 2:
+                            binds = [b.value for b in ast.walk(fi.node) if isinstance(b, (ast.Assign, ast.AnnAssign)) and b.value is not None and
+                                     any(isinstance(t_, ast.Name) and t_.id == e.id for t_ in (b.targets if isinstance(b, ast.Assign) else [b.target]))]
+                            if binds:
+                                out_: List[str] = []
+                                for b in binds:
+                                    a_ = alternatives(b, depth + 1)
+                                    if not a_:
+                                        return []
+                                    out_ += a_
+                                return out_
+                    return []
+                for pq in alternatives(recv):
                     pat, flags = comp[pq]
                     cb = n.args[0] if attr in ("sub", "subn") and n.args else None
                     subj = n.args[1] if attr in ("sub", "subn") and len(n.args) > 1 else (n.args[0] if n.args else None)
